@@ -79,16 +79,26 @@ def maxnormpool(D, g):
     return None, f"MaxNormPool D={D} g={g.tolist()}"
 
 
-def whiten(D, g):
-    """bounded check of the assumed relational contract of _group_norm_K1 (eigh whitening), default eps"""
+def whiten(D, g, groups=2):
+    """bounded check of _group_norm_K1 (real eigh): generic, small-amplitude and sparse inputs, default and large eps"""
     from ginjax.ml.layers import _group_norm_K1
     g = np.asarray(g)
     shape = [4, 3, 2][:D]
-    X = rnd((4,) + tuple(shape) + (D,), 8)
-    w0 = np.array(_group_norm_K1(D, jnp.array(X, dtype=jnp.float32), 2), dtype=np.float64)
-    wg = np.array(_group_norm_K1(D, jnp.array(act_block(X, D, (1, 0), g), dtype=jnp.float32), 2))
-    ok = np.allclose(wg, act_block(w0, D, (1, 0), g), rtol=5e-3, atol=5e-3)
-    return (None if ok else "eigh whitening not conjugation-equivariant"), f"_group_norm_K1 D={D} g={g.tolist()}"
+    full = (4,) + tuple(shape) + (D,)
+    generic = rnd(full, 8)
+    sparse = np.zeros(full)
+    for c in range(4):
+        sparse[(c,) + tuple((c + i) % s for i, s in enumerate(shape))] = rnd((D,), 30 + c)
+    for name, X, eps in [("generic", generic, 1e-5), ("generic eps=0.3", generic, 0.3), ("amplitude 1e-2", generic * 1e-2, 1e-5),
+                         ("sparse", sparse, 1e-5), ("sparse eps=0.3", sparse, 0.3)]:
+        w0 = np.array(_group_norm_K1(D, jnp.array(X, dtype=jnp.float32), groups, eps=eps), dtype=np.float64)
+        wg = np.array(_group_norm_K1(D, jnp.array(act_block(X, D, (1, 0), g), dtype=jnp.float32), groups, eps=eps))
+        exp = act_block(w0, D, (1, 0), g)
+        scale = max(1.0, float(np.abs(exp).max()))
+        if not (wg.shape == exp.shape and np.abs(wg - exp).max() <= 5e-3 * scale):
+            return f"_group_norm_K1(g.x) != g._group_norm_K1(x) on {name} input (max diff {np.abs(wg - exp).max():.3g}, scale {scale:.3g})", \
+                f"_group_norm_K1 D={D} groups={groups} g={g.tolist()}"
+    return None, f"_group_norm_K1 D={D} groups={groups} g={g.tolist()}"
 
 
 def run_req(req):
@@ -99,6 +109,10 @@ def run_req(req):
         return norm(req["D"], req["key"], req["groups"], req["g"])
     if sc == "pool":
         return pool(req["D"], req["k"], req["p"], req["op"], req["g"])
+    if sc == "whiten":
+        return whiten(req["D"], req["g"], req.get("groups", 2))
+    if sc == "maxnormpool":
+        return maxnormpool(req["D"], req["g"])
     return None, sc
 
 
@@ -124,7 +138,8 @@ def standin(req):
         for gi in gs:
             g = np.asarray(ops[gi]).tolist()
             rec(maxnormpool(D, g), dict(scenario="maxnormpool", D=D, g=g))
-            rec(whiten(D, g), dict(scenario="whiten", D=D, g=g))
+            for groups in [1, 2]:
+                rec(whiten(D, g, groups), dict(scenario="whiten", D=D, g=g, groups=groups))
             for (k, p) in [(0, 0), (1, 1)]:
                 rec(pool(D, k, p, "max_pool", g), dict(scenario="pool", D=D, k=k, p=p, op="max_pool", g=g))
             if only == "external":
